@@ -418,6 +418,11 @@ class Gen:
             if task:
                 blocks[0]["task"] = r.choice([" ", "x", "X"])
             extra = r.random()
+            if not task and depth < 2 and r.random() < 0.06:
+                # an item whose only block is a block quote (a single block: the list may still be tight)
+                blocks = [{"t": "quote", "blocks": self.blocks(depth + 1, "quote", r.randint(1, 2))}]
+                self.feats.add("quote-only-item")
+                extra = 1.0
             if extra < 0.30 and depth < 2:
                 sub = self.list_(depth + 1, "item")
                 if tight and sub["ordered"]:
@@ -437,7 +442,7 @@ class Gen:
             # be a setext underline)
             items[r.randint(1, nitems - 1)] = []
             self.feats.add("empty-item")
-        if self.hostile and r.random() < 0.1:
+        if r.random() < (0.1 if self.hostile else 0.05):
             self.feats.add("list-first-child-list")
             items[0] = [self.list_(depth + 1, "item")] if depth < 2 else items[0]
         if any(len(b) > 1 and any(x["t"] != "list" for x in b[1:]) for b in items):
